@@ -27,7 +27,14 @@ func (o *Obligation) query(forCvc5 bool) string {
 			sb.WriteString(d)
 			sb.WriteByte('\n')
 		}
-		for _, f := range tr.facts[:o.NFacts] {
+		var keep []bool
+		if !tr.noPrune && os.Getenv("GOVC_NOPRUNE") == "" {
+			keep = tr.relevantFacts(o.Goal, o.Extra, o.NFacts)
+		}
+		for i, f := range tr.facts[:o.NFacts] {
+			if keep != nil && !keep[i] {
+				continue
+			}
 			sb.WriteString("(assert ")
 			sb.WriteString(f)
 			sb.WriteString(")\n")
@@ -43,6 +50,9 @@ func (o *Obligation) query(forCvc5 bool) string {
 		sb.WriteString("(assert (not " + o.Goal + "))\n")
 	}
 	sb.WriteString("(check-sat)\n")
+	if tr != nil && tr.uninterpStrings {
+		return abstractStrings(sb.String())
+	}
 	return sb.String()
 }
 
